@@ -90,7 +90,7 @@ class TreeEnv:
             if n in ("ior", "iand", "isub", "ixor"):
                 import operator
                 fn = {"ior": operator.ior, "iand": operator.iand, "isub": operator.isub, "ixor": operator.ixor}[n]
-                arg = [K(x) for x in c[1]]
+                arg = t if (len(c) > 2 and c[2] == "self") else [K(x) for x in c[1]]     # s ^= s etc.: c[1] = the current keys
                 r = fn(t, arg)
                 return ("none",) if r is t else ("other", "not-self")
             if n == "isdisjoint":
